@@ -83,7 +83,10 @@ static void transform_case(Out &o, int mode, int q, int nc, const std::vector<fl
   // search: the C04 bound on the class itself (values inside the box only)
   for (size_t k = 0; k < visit.size(); k++) for (int c = 0; c < nc; c++) {
     float x = flat[(size_t)visit[k] * nc + c], mn = p.mins[c], d = back[k * nc + c];
-    if (!(x >= mn && x <= mn + p.range) || !std::isfinite(p.range) || !(p.range > 0)) continue;
+    // inside the box, at float level: x >= min and fl(x - min) <= range (what ComputeParameters guarantees and what
+    // the real-number box min <= x <= min + range implies; fl(min + range) >= x would be weaker and is NOT enough)
+    volatile float xm = x - mn;
+    if (!(x >= mn && xm <= p.range) || !std::isfinite(p.range) || !(p.range > 0)) continue;
     long double mag = std::max(fabsl((long double)x), std::max(fabsl((long double)mn), (long double)p.range));
     if (mag > 4e9L || (mag < 1e-7L)) continue;   // outside the property's magnitude window
     if (p.range < 1e-7f) continue;
